@@ -11,6 +11,7 @@ parameters; none / all / singles / all-but-one beyond).  Oracles:
 """
 from __future__ import annotations
 
+import ast
 import inspect
 import itertools
 import json
@@ -432,6 +433,22 @@ def special_shapes(cls: str, meth: str) -> Iterator[dict]:
             for prm in numeric:
                 args = args.replace(f"{prm}={full['binding'][prm]}", f"{prm}=pot8.read()")
             yield dict(full, args=args, binding={k: v for k, v in full["binding"].items() if k not in numeric}, same_call_params=numeric, pre_lines=['pot8 = Potentiometer("A3")'], group=full["group"] + ":same-call")
+        # the keyword part handed over as an unpacked mapping (and the positional part as an unpacked list): Python binds
+        # exactly as before, so the call is rejected or bound the same
+        try:
+            call_ast = ast.parse(f"f({sh['args']})", mode="eval").body
+        except SyntaxError:
+            call_ast = None
+        if call_ast is not None and (call_ast.keywords or call_ast.args) and not sh.get("_unpacked_done"):
+            pos_txt = [ast.unparse(a) for a in call_ast.args]
+            kw_txt = "{" + ", ".join(f'"{k.arg}": {ast.unparse(k.value)}' for k in call_ast.keywords) + "}"
+            variants = []
+            if call_ast.keywords:
+                variants.append(", ".join(pos_txt + ["**" + kw_txt]))
+            if call_ast.args:
+                variants.append(", ".join(["*[" + ", ".join(pos_txt) + "]"] + [f"{k.arg}={ast.unparse(k.value)}" for k in call_ast.keywords]))
+            for vi2, args2 in enumerate(variants):
+                yield dict(sh, args=args2, group=sh["group"], unpacked=vi2)
         for param, val in sh["binding"].items():
             if val.startswith("["):
                 for post in (["seqv.append(1)"], ["seqv.remove(1)"], ["seqv.append(0)", "seqv.append(1)"]):
